@@ -693,8 +693,19 @@ func Run(prop, tier string, c *kernel.Chooser, r *kernel.Recorder) *kernel.Viola
 	if cfg.Mode == ModeLiveness {
 		w.s.At(cfg.GST, func() { w.enterGST() })
 	}
+	// Wall-clock cap per run (the worker has to end within its budget): a run that is cut short
+	// has passed every check made so far; nothing is concluded from its remainder (liveness
+	// verdicts need an empty event queue or an exceeded round bound, see finalLiveness).
+	wallStart, wallCap := time.Now(), 40*time.Second
+	if tier == "thorough" {
+		wallCap = 100 * time.Second
+	}
 	for w.viol == nil && w.s.Steps < cfg.MaxSteps {
 		if !w.s.Step() {
+			break
+		}
+		if w.s.Steps%256 == 0 && time.Since(wallStart) > wallCap {
+			r.Probe("run_cut_short_wall_clock")
 			break
 		}
 		if w.allDone() {
